@@ -269,6 +269,14 @@ def run(ctx):
                     ec.set_debug(dbg)
                     cases.append(one(ctx, rng, 'True', 200, 'none', ctype, copy.deepcopy(TARGETS[-1]), ctxt, 'p:x', scheme, 'name', reuse=live))
                 ec.set_debug(False)
+    # targets holding several values that cannot be serialised (service objects): every one of them is replaced,
+    # wherever it stands in the target
+    for ctype in ('json', 'form'):
+        for scheme in ('http', 'https'):
+            for ctxt in ('bare', 'or_later', 'alias', 'not'):
+                for tgt in ({'k': 'x', 'o1': object(), 'o2': object()}, {'o1': object(), 'k': 'x', 'mid': 1, 'o2': object(), 'o3': object()},
+                            {'k': 'x', 'n': None, 'o1': object(), 'z': 'last'}):
+                    cases.append(one(ctx, rng, 'True', 200, 'none', ctype, tgt, ctxt, 'p:x', scheme, 'name'))
     n_body = len(cases)
     # faults x contexts x bodies that would allow
     for fault in ['timeout', 'connect_timeout', 'connection', 'ssl', 'slow']:
